@@ -34,12 +34,13 @@ type fragment struct {
 	nAss0    int     // assumptions before the fragment's own (for loop fragments: before the invariant)
 }
 
-var lawRe = regexp.MustCompile(`^(EXT|RES|EXTSCAN|RESSCAN)\(([^)]*)\)\s*(?:when\s+(.*))?$`)
+var lawRe = regexp.MustCompile(`^(EXT|RES|EXTSCAN|RESSCAN)\(([^)]*)\)\s*(?:ignoring\s+(\S+)\s*)?(?:when\s+(.*))?$`)
 
 type lawSpec struct {
 	kind   string
 	params []string
 	when   string
+	ignore string // "p.field": an internal bookkeeping cell that is dead inside the loops and on error returns
 	clause *Clause
 }
 
@@ -48,7 +49,7 @@ func parseLaw(c *Clause) (*lawSpec, error) {
 	if m == nil {
 		return nil, fmt.Errorf("bad law clause %q", c.Text)
 	}
-	ls := &lawSpec{kind: m[1], when: m[3], clause: c}
+	ls := &lawSpec{kind: m[1], when: m[4], ignore: m[3], clause: c}
 	for _, p := range strings.Split(m[2], ",") {
 		if p = strings.TrimSpace(p); p != "" {
 			ls.params = append(ls.params, p)
@@ -591,6 +592,8 @@ func eqCfg(a, b []*Term, skipA, skipB *Term) *Term {
 }
 
 func (x *Exec) lawRES(fr *Frame, frags []*fragment, ls *lawSpec, args []Val, nEntry int) {
+	curIgnExec = x
+	defer func() { curIgnExec = nil }()
 	fi := x.Top
 	if len(ls.params) != 2 {
 		x.fail("RES(buf, offs) takes the buffer and the offset parameter")
@@ -611,6 +614,7 @@ func (x *Exec) lawRES(fr *Frame, frags []*fragment, ls *lawSpec, args []Val, nEn
 	envB := &lawEnv{sub: map[*Term]*Term{L: L2}, memo: map[*Term]*Term{}}
 	f0 := frags[0]
 	out0 := x.outcomeOf(fr, f0)
+	ign := x.ignoredCell(ls, args)
 	fragByHead := map[*ssa.BasicBlock]*fragment{}
 	outByHead := map[*ssa.BasicBlock]*outcome{}
 	for _, f := range frags[1:] {
@@ -706,17 +710,17 @@ func (x *Exec) lawRES(fr *Frame, frags []*fragment, ls *lawSpec, args []Val, nEn
 			}
 			// (a) the resumed call is back in the configuration the short run suspended in
 			if f.ld != nil && f.ld.header == h {
-				alts = append(alts, And(E.arrG[h], eqCfg(E.arrC[h], f.headVars, L2, L)))
+				alts = append(alts, And(E.arrG[h], eqCfgIgn(E.arrC[h], f.headVars, L2, L, ign)))
 			}
 			// (b) after one more iteration the two agree
-			alts = append(alts, And(E.arrG[h], sameOutcome(B, R2, L2, L2)))
+			alts = append(alts, And(E.arrG[h], sameOutcomeIgn(B, R2, L2, L2, ign, vc)))
 			// (c) the long run's next configuration is where the resumed call starts
 			if bc, ok := B.arrC[h]; ok {
-				alts = append(alts, And(E.arrG[h], B.arrG[h], eqCfg(bc, E.arrC[h], L2, L2)))
+				alts = append(alts, And(E.arrG[h], B.arrG[h], eqCfgIgn(bc, E.arrC[h], L2, L2, ign)))
 			}
 		}
 		// (b') the resumed call returns at once with what the long run returns / both reach the same head
-		alts = append(alts, sameOutcome(B, E, L2, L2))
+		alts = append(alts, sameOutcomeIgn(B, E, L2, L2, ign, vc))
 		mk := func(site string, goal *Term, note string) {
 			o := &Obligation{Name: fmt.Sprintf("%s/law:%s/%s/%s", x.TopKey, ls.kind, f.name, site), Kind: "law", Func: x.TopKey, Tags: ls.clause.Tags,
 				Guard: True(), Goal: goal, NAssume: f.nAss, Extra: extra, Expect: "unsat", ex: x, Note: note}
@@ -886,4 +890,152 @@ func liveAt(fn *ssa.Function, h *ssa.BasicBlock) map[*ssa.Alloc]bool {
 		liveCache[b] = liveIn[b]
 	}
 	return liveIn[h]
+}
+
+// ignoredCell: the heap cell named in "ignoring p.f" (as it appears in observables: a select term on the base
+// heap at entry), after checking that the loops never read it.
+func (x *Exec) ignoredCell(ls *lawSpec, args []Val) *ignoreSpec {
+	if ls.ignore == "" {
+		return nil
+	}
+	parts := strings.SplitN(ls.ignore, ".", 2)
+	if len(parts) != 2 {
+		x.fail("ignoring: want p.field")
+	}
+	pi := paramIndex(x.Top, parts[0])
+	if pi < 0 {
+		x.fail("ignoring: no parameter %s", parts[0])
+	}
+	pt, ok := x.Top.PTypes[pi].Underlying().(*types.Pointer)
+	if !ok {
+		x.fail("ignoring: %s is not a pointer", parts[0])
+	}
+	var paths []string
+	cellPaths(pt.Elem(), "", &paths)
+	idx := -1
+	for k, p := range paths {
+		if p == "."+parts[1] || strings.HasSuffix(p, "."+parts[1]) {
+			idx = k
+		}
+	}
+	if idx < 0 {
+		x.fail("ignoring: no field %s", parts[1])
+	}
+	// deadness: no load of that field inside any loop of the function (and the field is not touched by callees
+	// other than through whole-object contracts, which the frame/ensures account for)
+	ci := analyzeCFG(x.Top.Fn)
+	for _, ld := range ci.loops {
+		for b := range ld.blocks {
+			for _, in := range b.Instrs {
+				if u, ok := in.(*ssa.UnOp); ok {
+					if fa, ok := u.X.(*ssa.FieldAddr); ok {
+						st := fa.X.Type().Underlying().(*types.Pointer).Elem().Underlying().(*types.Struct)
+						if st.Field(fa.Field).Name() == parts[1] {
+							x.fail("ignoring %s: the field is read inside a loop", ls.ignore)
+						}
+					}
+				}
+			}
+		}
+	}
+	mo, mt := memOffsOf(pt.Elem()), memTagsOf(pt.Elem())
+	return &ignoreSpec{blk: BVAdd(args[pi].C[0], BV(int64(mt[idx]), 32)), off: BVAdd(args[pi].C[1], BV(int64(mo[idx]), 64))}
+}
+
+type ignoreSpec struct{ blk, off *Term }
+
+// isIgnored: is observable t (in some run) the content of the ignored cell? Observables of region cells are
+// built as select(select(heap, blk), off); we compare the address part.
+func (ig *ignoreSpec) positions(x *Exec) map[int]bool {
+	out := map[int]bool{}
+	if ig == nil {
+		return out
+	}
+	i := 0
+	for _, r := range x.regions {
+		if r.Const > 0 && !(r.ElemT != nil && containsArray(r.ElemT)) {
+			for k := range r.Sorts {
+				if BVAdd(r.Blk, BV(int64(r.Tags[k]), 32)) == ig.blk && BVAdd(r.Off, BV(int64(r.Offs[k]), 64)) == ig.off {
+					out[i] = true
+				}
+				i++
+			}
+			continue
+		}
+		type tk struct {
+			t int
+			s *Sort
+		}
+		seen := map[tk]bool{}
+		for k, s := range r.Sorts {
+			if !seen[tk{r.Tags[k], s}] {
+				seen[tk{r.Tags[k], s}] = true
+				i++
+			}
+		}
+	}
+	return out
+}
+
+var curIgnExec *Exec
+
+// eqCfgIgn: configurations are local cells followed by the region observables; the ignored cell is skipped
+func eqCfgIgn(a, b []*Term, skipA, skipB *Term, ig *ignoreSpec) *Term {
+	if ig == nil || curIgnExec == nil {
+		return eqCfg(a, b, skipA, skipB)
+	}
+	pos := ig.positions(curIgnExec)
+	nreg := len(curIgnExec.regionObs(&State{G: True(), Loc: map[int][]*Term{}, Heap: map[*Sort]*Term{}}))
+	if len(a) != len(b) {
+		return False()
+	}
+	base := len(a) - nreg
+	var es []*Term
+	for i := range a {
+		if i >= base && pos[i-base] {
+			continue
+		}
+		if (skipA != nil && a[i] == skipA) || (skipB != nil && b[i] == skipB) || a[i] == skipB || b[i] == skipA {
+			continue
+		}
+		if a[i].S != b[i].S {
+			return False()
+		}
+		es = append(es, Eq(a[i], b[i]))
+	}
+	return And(es...)
+}
+
+// sameOutcomeIgn: like sameOutcome; on an error verdict the ignored bookkeeping cell is not compared
+func sameOutcomeIgn(p, q *outcome, skipP, skipQ *Term, ig *ignoreSpec, vc int) *Term {
+	if ig == nil || curIgnExec == nil {
+		return sameOutcome(p, q, skipP, skipQ)
+	}
+	var alts []*Term
+	if len(p.retO) > 0 && len(q.retO) > 0 && len(p.retO) == len(q.retO) {
+		pos := ig.positions(curIgnExec)
+		nreg := len(curIgnExec.regionObs(&State{G: True(), Loc: map[int][]*Term{}, Heap: map[*Sort]*Term{}}))
+		base := len(p.retO) - nreg
+		var es, esAll []*Term
+		for i := range p.retO {
+			e := Eq(p.retO[i], q.retO[i])
+			esAll = append(esAll, e)
+			if i >= base && pos[i-base] {
+				continue
+			}
+			es = append(es, e)
+		}
+		isErr := True()
+		if vc >= 0 {
+			v := p.retO[vc]
+			isErr = And(Neq(v, BV(0, 32)), Neq(v, BV(1, 32)), Neq(v, BV(errMoreBytes, 32)), Neq(v, BV(4, 32)))
+		}
+		alts = append(alts, And(p.retG, q.retG, Ite(isErr, And(es...), And(esAll...))))
+	}
+	for _, h := range p.heads {
+		if qc, ok := q.arrC[h]; ok {
+			alts = append(alts, And(p.arrG[h], q.arrG[h], eqCfgIgn(p.arrC[h], qc, skipP, skipQ, ig)))
+		}
+	}
+	return Or(alts...)
 }
